@@ -25,6 +25,7 @@ W64 = 64
 def cubes(tier, has_fc):
     out = [{'part': 'position'}, {'part': 'dependency', 'imports': 2 if tier == 'quick' else 3}]
     out.append({'part': 'comment_range'})
+    out.append({'part': 'v1_upgrade'})
     # cross-check of the two scalar kernels on the compiled crate (Kani/CBMC)
     out.append({'part': 'kani', 'engine': 'kani', 'harnesses': ['position_order_is_lexicographic', 'range_includes_is_the_closed_lexicographic_interval']})
     return out
@@ -111,14 +112,71 @@ def build(mir, cube):
         pad = z3.If(q, z3.BitVecVal(0, W64), z3.BitVecVal(1, W64))
         es = cs + 2 + rs - pad; ee = cs + 2 + re_ + pad
         bad = z3.Or(start.f[0] != L(es), start.f[1] != C(es), end.f[0] != L(ee), end.f[1] != C(ee))
-        qs.append(Query('pragma-range-covers-exactly-the-specifier-with-its-quotes', z3.And(And(pre), bad), world=None))
-        qs.append(Query('witness-quoted', z3.And(And(pre), z3.Not(q), rs != re_), expect='sat', kind='witness'))
-        # 64-bit wrap-around of the narrowed... here the width is the real one: additions cannot wrap under the precondition
-        qs.append(Query('offset-arithmetic-does-not-wrap', z3.And(And(pre), Or(g for l, g in eng.obligations)), world=None))
+        # natively replayable subset: "\n"*ln + "/*" + "é"*m + "a"*a + "*/" + `// @deno-types="` + "é"*k + "x"*n + `"`, analysed through the public
+        # ParserModuleAnalyzer (the regex puts the specifier at offset 14 of the comment text); L/C are then the text's real mapping
+        ln, m_, a_, k_, n_ = [sym.bv(x, W64, lt=b) for x, b in (('rp_ln', 3), ('rp_m', 3), ('rp_a', 4), ('rp_k', 3), ('rp_n', 4))]
+        realizable = [z3.Not(q), rs == 14, n_ != 0, re_ - rs == 2 * k_ + n_, cs == ln + 4 + 2 * m_ + a_,
+                      L(es) == ln, L(ee) == ln, C(es) == es - ln - m_, C(ee) == ee - ln - m_ - k_]
+        op = Op('analyze_pragma', lambda m: {'ln': ev(m, ln), 'm': ev(m, m_), 'a': ev(m, a_), 'k': ev(m, k_), 'n': ev(m, n_)},
+                lambda m: {'range': [[ev(m, start.f[0]), ev(m, start.f[1])], [ev(m, end.f[0]), ev(m, end.f[1])]]})
+        class FcWorld(JsonWorld): has_fc = True
+        world = FcWorld(lambda m: {'positions': True})
+        qs.append(Query('pragma-range-covers-exactly-the-specifier-with-its-quotes', z3.And(And(pre), bad), ops=[op], world=world, realizable=realizable))
+        qs.append(Query('witness-multibyte-inside-and-before-the-specifier', z3.And(And(pre), k_ != 0, m_ != 0, ln != 0), expect='sat', kind='witness', ops=[op], world=world, realizable=realizable))
+        qs.append(Query('offset-arithmetic-does-not-wrap', z3.And(And(pre), Or(g for l, g in eng.obligations))))
+        eng.obligations = []
+    elif part == 'v1_upgrade':
+        # module_graph_1_to_2::analyze_deno_types: the @deno-types range of an old (v1) module info is rebuilt from the LAST leading
+        # comment's start position and the pragma match inside its text; find_deno_types (a regex) is the environment: an arbitrary match
+        K = 2
+        found = sym.bool('pragma_found'); rs = sym.bv('match_start', W64); re_ = sym.bv('match_end', W64)
+        def stub_find(eng_, c, a, g):
+            m = Agg([{'text': StrV('spec'), 'range': Agg([rs, re_]), 'is_quoteless': FALSE}[f] for f in st['DenoTypesPragmaMatch']])
+            return opt(found, m)
+        import re as _re
+        eng.cfg['stubs'] = [(_re.compile(r'find_deno_types'), stub_find)]
+        ncom = [sym.bool(f'comment{k}_present') for k in range(K)]
+        coms, cpos = [], []
+        for k in range(K):
+            (cs_, ce_), rv = prange(f'comment{k}')
+            cpos.append((cs_, ce_))
+            coms.append((ncom[k], Agg([{'text': StrV('comment text'), 'range': rv}[f] for f in st['Comment']])))
+        lim = z3.BitVecVal(1 << 62, W64)
+        pre = [z3.ULT(rs, lim), z3.ULT(re_, lim), z3.ULE(rs, re_), z3.UGE(rs, 1)] + [z3.ULT(c[0][1], lim) for c in cpos]
+        name = mir.index[(None, None, 'analyze_deno_types')]
+        r = eng.call(name, [ref_to(SeqV(coms), 'leading-comments')], TRUE)
+        some = opt_is_some(r); sw = opt_payload(r)
+        rng = sw.f[st['SpecifierWithRange'].index('range')]
+        gs = (rng.f[0].f[0], rng.f[0].f[1]); ge = (rng.f[1].f[0], rng.f[1].f[1])
+        # last present comment
+        last_line, last_char, any_c = z3.BitVecVal(0, W64), z3.BitVecVal(0, W64), z3.BoolVal(False)
+        for k in range(K):
+            last_line = z3.If(ncom[k], cpos[k][0][0], last_line); last_char = z3.If(ncom[k], cpos[k][0][1], last_char); any_c = z3.Or(any_c, ncom[k])
+        exp_some = z3.And(any_c, found)
+        exp_s = (last_line, last_char + 2 + rs - 1); exp_e = (last_line, last_char + 2 + re_ + 1)
+        bad = z3.Or(some != exp_some, z3.And(some, z3.Or(gs[0] != exp_s[0], gs[1] != exp_s[1], ge[0] != exp_e[0], ge[1] != exp_e[1])))
+        def opj(m):
+            comments = []
+            n = ev(m, re_) - ev(m, rs)
+            text = ' ' * (ev(m, rs) - 13) + '@deno-types="' + 'x' * n + '" trailing' if ev(m, found) else ' no pragma here'
+            for k in range(K):
+                if ev(m, ncom[k]):
+                    last = all(not ev(m, ncom[j]) for j in range(k + 1, K))
+                    comments.append({'text': text if last else ' other', 'range': [[ev(m, cpos[k][0][0]), ev(m, cpos[k][0][1])], [ev(m, cpos[k][1][0]), ev(m, cpos[k][1][1])]]})
+            return {'comments': comments}
+        def dec(m):
+            if not ev(m, some): return {'range': None}
+            return {'range': [[ev(m, gs[0]), ev(m, gs[1])], [ev(m, ge[0]), ev(m, ge[1])]]}
+        op = Op('v1_upgrade', opj, dec)
+        small = z3.BitVecVal(1 << 20, W64)
+        realizable = [z3.UGE(rs, 13), z3.ULE(rs, 60), z3.UGT(re_, rs), z3.ULE(re_ - rs, 30)] + [z3.ULT(x, small) for c in cpos for p_ in c for x in p_]
+        qs.append(Query('v1-deno-types-range-covers-the-quoted-specifier-on-the-comment-line', z3.And(And(pre), bad), ops=[op], world=world, realizable=realizable))
+        qs.append(Query('witness-second-comment-used', z3.And(And(pre), some, ncom[0], ncom[1], z3.Or(cpos[0][0][0] != cpos[1][0][0], cpos[0][0][1] != cpos[1][0][1])), expect='sat', kind='witness', ops=[op], world=world, realizable=realizable))
+        qs.append(Query('offset-arithmetic-does-not-wrap', z3.And(And(pre), Or(g for l, g in eng.obligations))))
         eng.obligations = []
     for fname in sorted({f for f, _ in eng.exceeded}):
         qs.insert(0, Query('unwinding:' + fname.split('>::')[-1], Or(gd for f, gd in eng.exceeded if f == fname), kind='unwind'))
-    if part != 'comment_range': qs.insert(0, Query('model-capacity', Or(gd for _, gd in eng.obligations), kind='obligation'))
+    if part not in ('comment_range', 'v1_upgrade'): qs.insert(0, Query('model-capacity', Or(gd for _, gd in eng.obligations), kind='obligation'))
     qs.insert(0, Query('no-panic', Or(gd for _, gd in eng.panics)))
     return eng, world, list(sym.cons), qs
 
